@@ -125,9 +125,9 @@ def property_cases():
     out = []
     for el_label, el in (("String()", lambda: String()), ("Integer(default=1)", lambda: Integer(default=1)), ("Array(Element())", lambda: Array(Element())), ("AnyOf(String(), Null())", lambda: AnyOf(String(), Null()))):
         for req in (False, True):
-            for src in (None, "class", "a b", ""):
+            for src in (None, "class", "a b", "", "class_", "a"):
                 out.append(("Property(%s, required=%s, source=%r) unbound" % (el_label, req, src), lambda el=el, req=req, src=src: (Property(el(), required=req, source=src), None)))
-                for bind in ("a", "class_"):
+                for bind in ("a", "class_", "", "from_"):
                     def f(el=el, req=req, src=src, bind=bind):
                         p = Property(el(), required=req, source=src)
                         p.bind(name=bind, parent=Element())
